@@ -165,7 +165,8 @@ class ExprMixin:
         return ListV(items=[self.eval(e) for e in node.elts])
 
     def ex_Set(self, node):
-        return ListV(items=[self.eval(e) for e in node.elts], desc='set')
+        from .calls import make_set
+        return make_set(self, ListV(items=[self.eval(e) for e in node.elts]))
 
     def ex_Dict(self, node):
         d = DictV()
@@ -1023,7 +1024,11 @@ class ExprMixin:
         if isinstance(obj, SeqV):
             l = self.as_lin(key)
             if l is not None:
-                return seqops.index_seq(self, obj, l, node)
+                r = seqops.index_seq(self, obj, l, node)
+                if obj.kind == 'bytes' and self.decide_ge0(l):
+                    # reading one byte by its index consumes data[i:i+1] (framing rules follow the bytes that are read)
+                    self.event('slice', node, obj=obj, lo=l, hi=l + 1, result=r, index=True)
+                return r
         if isinstance(obj, TupleV):
             k = self.py_key(key)
             if isinstance(k, int) and -len(obj.items) <= k < len(obj.items):
@@ -1190,7 +1195,21 @@ class ExprMixin:
                     return None
                 d.items[k] = kv.items[1]
             return d
+        if kind == 'set':
+            from .calls import make_set
+            return make_set(self, ListV(items=out))
         return ListV(items=out)
+
+    EAGER_CONSUMERS = {'list', 'tuple', 'set', 'frozenset', 'dict', 'sum', 'min', 'max', 'any', 'all', 'sorted', 'bytes', 'bytearray'}
+    EAGER_METHODS = {'join', 'update', 'extend', 'writerows', 'write_many', 'writelines'}
+
+    def _consumed_at_once(self, node):
+        """a generator expression written directly as the argument of a call that iterates it to the end"""
+        par = getattr(node, '_parent', None)
+        if not (isinstance(par, ast.Call) and node in par.args):
+            return False
+        f = par.func
+        return isinstance(f, ast.Name) and f.id in self.EAGER_CONSUMERS or isinstance(f, ast.Attribute) and f.attr in self.EAGER_METHODS
 
     def _comprehension(self, node, elt, kind):
         if len(node.generators) == 1 and not node.generators[0].is_async and not self.nofork:
@@ -1202,6 +1221,22 @@ class ExprMixin:
                 if r is not None:
                     return r
         fr = self.frames[-1]
+        first_iter = None
+        if node.generators and not self.nofork:
+            # the first iterable is evaluated in the enclosing scope (as Python does); a generator call is run to its end
+            # here, with forking, so that its loops and the errors its body can raise are explored like any other code
+            first_iter = self.eval(node.generators[0].iter)
+            g0 = self.resolve(first_iter)
+            if isinstance(g0, GenCallV) and (kind != 'gen' or self._consumed_at_once(node)):
+                first_iter = self.drain_generator(g0, node.generators[0].iter)
+            elif isinstance(g0, GenCallV) and not g0.started and len(node.generators) == 1:
+                # a lazy pipeline stage: nothing runs until somebody iterates it (a for statement of this function
+                # iterates it as the loop it stands for, see st_For)
+                r = IterV(SymV(self.fresh('lazy'), 'any'), src=g0, filtered=bool(node.generators[0].ifs), desc='genexp')
+                r.lazy_genexp = (node, fr, g0)
+                r.lazy_unforced = True
+                self.event('comprehension', node, ckind=kind, elem=None, sources=[g0], filtered=r.filtered, lazy=True)
+                return r
         saved_locals = dict(fr.locals)
         saved_store = self.store.copy()
         filtered = False
@@ -1210,7 +1245,7 @@ class ExprMixin:
         self.nofork += 1
         try:
             for i, gen in enumerate(node.generators):
-                itv = self.eval(gen.iter)
+                itv = first_iter if i == 0 and first_iter is not None else self.eval(gen.iter)
                 srcs.append(itv)
                 elem, ln = self.iter_element(itv, gen.iter)
                 if i == 0:
@@ -1220,9 +1255,10 @@ class ExprMixin:
                 self.assign(gen.target, elem, node)
                 for cond in gen.ifs:
                     filtered = True
-                    t = self.truth(self.eval(cond))
+                    cv = self.eval(cond)
+                    t = self.truth(cv)
                     # evaluate the element under the assumption that the filter passed
-                    self.event('comp-filter', cond, text=ast.unparse(cond))
+                    self.event('comp-filter', cond, text=ast.unparse(cond), value=cv, comp=node)
             a0 = getattr(self, 'assumed', 0)
             ev = self.eval(elt)
             if getattr(self, 'assumed', 0) != a0:
@@ -1260,8 +1296,12 @@ class ExprMixin:
             d.comp = (ev, srcs, filtered)
             return d
         if kind == 'gen':
-            return IterV(ev, src=srcs[0] if srcs else None, filtered=filtered, desc='genexp',
-                         length=None if filtered else length)
+            r = IterV(ev, src=srcs[0] if srcs else None, filtered=filtered, desc='genexp',
+                      length=None if filtered else length)
+            g0 = self.resolve(first_iter) if first_iter is not None else None
+            if isinstance(g0, GenCallV) and not g0.started:
+                r.lazy_genexp = (node, fr, g0)
+            return r
         lv = ListV(items=None, elem=ev, length=None if filtered else length, desc=f'{kind}comp')
         lv.src = srcs[0] if srcs else None
         lv.filtered = filtered
@@ -1269,4 +1309,7 @@ class ExprMixin:
             s = self.fresh('n')
             self.store.declare(s, 0, self.store.hi(length) if length is not None else None)
             lv.len = Lin.sym(s)
+        if kind == 'set':
+            from .calls import make_set
+            return make_set(self, lv)
         return lv
